@@ -10,6 +10,7 @@ import (
 	"github.com/bytedance/sonic/internal/decoder/jitdec"
 	"github.com/bytedance/sonic/internal/decoder/optdec"
 	"github.com/bytedance/sonic/internal/encoder/vars"
+	"github.com/bytedance/sonic/internal/encoder/x86"
 	"github.com/bytedance/sonic/internal/resolver"
 	"github.com/bytedance/sonic/internal/rt"
 )
@@ -62,3 +63,12 @@ func CacheCompute(pc *ProgramCache, k *GoType, compute func() (interface{}, erro
 }
 
 func CacheEntries(pc *ProgramCache) (keys []*GoType, vals []interface{}) { return pc.VerifEntries() }
+
+// ---- runtime-event injection at opcode boundaries of generated code (engine E4) ----
+
+// SetDecoderInject / SetEncoderInject install the function called at every opcode boundary
+// (effective only in processes started with VERIF_INJECT set).
+func SetDecoderInject(f func(i, op1, op2 int)) { jitdec.VerifInject = f }
+func SetEncoderInject(f func(i, op1, op2 int)) { x86.VerifInject = f }
+func DecoderOpName(op int) string               { return jitdec.VerifOpName(op) }
+func EncoderOpName(op int) string               { return x86.VerifOpName(op) }
